@@ -104,7 +104,7 @@ PROP = Prop(
 )
 
 MANIFEST = dict(
-    category='proof',
+    category='other',
     text='join_unicode (real body, every piece list up to length 3 over str/bytes): the result is text, equal to the concatenation of '
          'the pieces in order with each bytes piece decoded exactly once with the encoding passed in (OLD_DEFAULT_ENCODING when none); '
          'render_blocks returns "", the single piece, or join_unicode(pieces, its own encoding); html_quote decodes bytes (with the '
